@@ -26,6 +26,10 @@ class TcpClient(object):
 
         self.exception_queue = None
 
+        # state of the raw ("*...;") framer, kept between reads
+        self.current_msg = ""
+        self.msg_stop = False
+
     def connect(self):
         self.socket = zmq.Context().socket(zmq.STREAM)
         self.socket.setsockopt(zmq.LINGER, 0)
@@ -45,18 +49,16 @@ class TcpClient(object):
         """
         messages = []
 
-        msg_stop = False
-        self.current_msg = ""
         for b in self.buffer:
             if b == 59:
-                msg_stop = True
+                self.msg_stop = True
                 ts = time.time()
                 messages.append([self.current_msg, ts])
             if b == 42:
-                msg_stop = False
+                self.msg_stop = False
                 self.current_msg = ""
 
-            if (not msg_stop) and (48 <= b <= 57 or 65 <= b <= 70 or 97 <= b <= 102):
+            if (not self.msg_stop) and (48 <= b <= 57 or 65 <= b <= 70 or 97 <= b <= 102):
                 self.current_msg = self.current_msg + chr(b)
 
         self.buffer = []
